@@ -448,6 +448,36 @@ def big_batch(s, rng):
     s.do(35, [])
 
 
+def dropped_batch(s, rng):
+    """a crawl batch dropped half-way (its generator closed after a few steps), between two readings of the counts; then
+    the same batch submitted to its end.  The specification state is not consulted after the drop (what a half-run batch
+    leaves is the model's business); the counts are judged against the page enumeration of the same moment, and every
+    enumerated page must be one that was submitted."""
+    if rng.random() > 0.15:
+        return
+    s.notes = getattr(s, "notes", [])
+    s.notes.append("dropped_batch")
+    site = b"s:http|h:com|h:dropped%d|" % rng.randint(0, 1)
+    n = rng.randint(3, 9)
+    targets = [site + b"p:t%d|" % i for i in range(n)]
+    src = rng.choice(s.tr.pages) if s.tr.pages and rng.random() < 0.5 else site
+    data = [[src, targets]]
+    if rng.random() < 0.5:
+        data.append([targets[0], [src, site + b"p:late|"]])
+    s.do(38, [])
+    s.abandon(rng, given=([[0, data]], [0] * rng.randint(1, n), 0))
+    s.do(35, [])
+    s.do(38, [])
+    s.do(39, [])
+    if rng.random() < 0.5:
+        s.do(21, [targets[0]])
+        s.do(35, [])
+        s.do(38, [])
+    s.do(5, [data])
+    s.do(35, [])
+    s.do(38, [])
+
+
 def high_ids(s, rng):
     """a webentity whose id no longer fits one byte (the caller may choose the id when attaching a prefix), with nested own
     prefixes (the www variation) and a nested foreign webentity: the per-webentity queries on exactly that one"""
@@ -802,7 +832,7 @@ def reg(pid, theorems, focus, nq=480, nt=30000, nw=25, depth=1, mixkw=None, extr
 
 
 reg("C01", ["C01_pages_perm", "C01_count_pages", "C01_reports"], K.FACET_OPS["C01"], weird=0.3,
-    sweep=both_sweeps(long_sweep, scale_sweep(["chain70", "links1100"])), extra=[big_batch])
+    sweep=both_sweeps(long_sweep, scale_sweep(["chain70", "links1100"])), extra=[big_batch, dropped_batch])
 reg("C02", ["C02_find_known", "C02_windup", "C02_stem_roundtrip"], K.FACET_OPS["C02"], sweep=both_sweeps(helper_sweep(["chunks", "lru"]), perm_sweep(5), long_sweep, scale_sweep(["chain70", "chain1100", "deep70"])),
     weird=0.45, extra=[flag_churn])
 reg("C03", ["C03_out", "C03_in", "C03_count"], K.FACET_OPS["C03"], mixkw={"add_links": 30, "batch": 20}, extra=[big_batch],
@@ -842,9 +872,14 @@ def _c14_worker(job):
     try:
         s.do(1, [rng.choice([0, 1]), []])
         s.ro_check = True
+        rng2 = random.Random(seed * 7919 + 13)
         for i in range(cfg["nw"]):
             op, args = G.gen_write(rng, s.tr, dict(G.DEFAULT_MIX, add_rule=12))
             s.do(op, args)
+            if rng2.random() < 0.15:
+                # requests that are issued and dropped before their first step (the writers) or after a few (the queries):
+                # nothing may be written
+                s.abandon(rng2, partial=False)
             if rng.random() < 0.2:
                 s.observe(1, None)
         s.observe(2, None)
@@ -1078,6 +1113,7 @@ def _twin_worker(job):
         elif mode == "clear":
             mixw["reopen"] = 4
         nw = cfg["nw"]
+        rng2 = random.Random(seed * 7919 + 13)
         clear_at = rng.randint(2, nw - 3) if mode == "clear" else None
         clear_cmd_index = None
         for i in range(nw):
@@ -1090,6 +1126,9 @@ def _twin_worker(job):
                 continue
             op, args = G.gen_write(rng, prim.tr, mixw)
             prim.do(op, args)
+            if rng2.random() < 0.1:
+                # dropped requests: whatever they leave in RAM only would be lost by the close and kept by the twin
+                prim.abandon(rng2, partial="rule" if rng2.random() < 0.3 else False)
             if rng.random() < 0.25:
                 prim.observe(0, focus)
         prim.observe(1, focus)
@@ -1527,6 +1566,13 @@ def _c16_worker(job):
         for i in range(0 if cfg.get("nowrites") else rng.randint(2, cfg["nw"])):
             op, args = G.gen_write(rng, s.tr, dict(G.DEFAULT_MIX, reopen=0, clear=0))
             s.do(op, args)
+        if cfg.get("drop_first"):
+            # the same installation was issued before and dropped after a few steps: the one that follows must still
+            # do all of its work (pages and links, the promise of this property, are not touched by an installation,
+            # so the specification state stays exact)
+            sp0, steps = cfg["drop_first"]
+            s.abandon(rng, given=([list(sp0)], [0] * steps, 0), retry=False)
+            s.spec_off = False
         specs = cfg.get("specs")
         if specs is not None and cfg.get("query_of"):
             # the page-link query is about the webentity that holds this page now
@@ -1769,6 +1815,10 @@ def c16_runner(prop, tier, seed, replay):
         sched = [rng.randrange(len(specs)) for _k in range(rng.randint(4, 30))]
         jobs.append((seed + len(jobs), {"nw": 2, "specs": specs, "sched": sched,
                                         "prelude": [[2, [rng.choice(below), rng.randint(0, 1)]], [2, [rng.choice(below), 0]], [2, [anchor, 1]]]}))
+        if rng.random() < 0.3:
+            jobs[-1][1]["drop_first"] = (specs[0], rng.randint(1, 4))
+            jobs[-1][1]["nowrites"] = True
+            jobs[-1][1]["prelude"] = [[1, [rng.choice([0, 1]), []]]] + [[2, [x, rng.randint(0, 1)]] for x in below + [below[2] + b"p:e|", anchor + b"p:zz|p:y|"]]
     # a page-link query against writers that move its sources and targets into new webentities while it runs (a batch
     # adding pages on the other scheme of the site, where a creation rule sits; a rule installation inside the site)
     nplq = 500 if tier == "thorough" else 90
